@@ -120,7 +120,8 @@ def evaluate__plus_operator(self: XPathToken, context: ta.ContextType = None) \
         op2: ta.ArithmeticType
         op1, op2 = self.get_operands(context, cls=ArithmeticProxy)
         if op1 is None:
-            return []
+            # XPath 1.0: an empty node-set operand is converted with number()
+            return math.nan if self.parser.version == '1.0' else []
 
         try:
             return op1 + op2  # type:ignore[operator, return-value]
@@ -142,13 +143,16 @@ def evaluate__minus_operator(self: XPathToken, context: ta.ContextType = None) \
         -> ta.OneArithmeticOrEmpty:
     if len(self) == 1:
         arg: ta.NumericType = self.get_argument(context, cls=NumericProxy)
-        return [] if arg is None else -arg
+        if arg is None:
+            return math.nan if self.parser.version == '1.0' else []
+        return -arg
     else:
         op1: ta.ArithmeticType | None
         op2: ta.ArithmeticType
         op1, op2 = self.get_operands(context, cls=ArithmeticProxy)
         if op1 is None:
-            return []
+            # XPath 1.0: an empty node-set operand is converted with number()
+            return math.nan if self.parser.version == '1.0' else []
 
         try:
             return op1 - op2  # type:ignore[operator, return-value]
@@ -179,7 +183,7 @@ def evaluate__div_operator(self: XPathToken, context: ta.ContextType = None) \
     divisor: ta.ArithmeticType
     dividend, divisor = self.get_operands(context, cls=ArithmeticProxy)
     if dividend is None:
-        return []
+        return math.nan if self.parser.version == '1.0' else []
     elif divisor != 0:
         try:
             if isinstance(dividend, int) and isinstance(divisor, int):
@@ -222,7 +226,7 @@ def evaluate__mod_operator(self: XPathToken, context: ta.ContextType = None) \
     op2: ta.NumericType | None
     op1, op2 = self.get_operands(context, cls=NumericProxy)
     if op1 is None:
-        return []
+        return math.nan if self.parser.version == '1.0' else []
     elif op2 is None:
         raise self.error('XPTY0004', '2nd operand is an empty sequence')
     elif op2 == 0 and (isinstance(op2, float) or isinstance(op1, float)):
